@@ -2,6 +2,7 @@ package main
 
 import (
 	"go/token"
+	"go/types"
 
 	"golang.org/x/tools/go/ssa"
 )
@@ -12,7 +13,7 @@ import (
 func init() {
 	register(&Rule{
 		Name:     "LENZERO",
-		Doc:      "a length decoded by BinaryProtocol.ReadLength() is never rejected for being zero: an If condition `len <= 0`, `len < 1` or `len == 0` on (a conversion of) that result whose true edge returns a certainly non-nil error is a violation (`len < 0` is fine); empty embedded messages, strings and packed lists are valid wire data",
+		Doc:      "a length decoded by BinaryProtocol.ReadLength() is never rejected for being zero: an If condition `len <= 0`, `len < 1` or `len == 0` on (a conversion of) that result whose true edge returns a certainly non-nil error is a violation (`len < 0` is fine), nor answered with an early `return nil, nil` of an interface-typed result: empty embedded messages, strings and packed lists are valid wire data and an empty message is a present value",
 		Configs:  "NP",
 		Floor:    map[string]int{"N": 8, "P": 8},
 		Controls: 1,
@@ -73,6 +74,10 @@ func runLenZero(rc *RuleCtx) {
 									if ei >= 0 && len(ret.Results) > ei && ec.nonNil(ret.Results[ei], iff.Block(), map[ssa.Value]bool{}) {
 										bad = true
 										rc.bad(fn, "ReadLength zero test", x.Pos(), "a zero length is rejected with an error: empty embedded messages / strings / packed lists are valid wire data")
+									} else if ei > 0 && len(ret.Results) > ei && isNilConst(ret.Results[ei]) && isNilConst(ret.Results[0]) && types.IsInterface(ret.Results[0].Type()) {
+										// (nil, nil): a present-but-empty message is reported as absent
+										bad = true
+										rc.bad(fn, "ReadLength zero test", x.Pos(), "a zero length returns (nil, nil): an empty embedded message that IS present in the input is reported as a nil value — the reader loses the presence the reference decoder keeps (an empty message), and writing the value back fails")
 									}
 								}
 							}
